@@ -465,15 +465,17 @@ impl<T, Codec, const BUFFER: usize, const MAX_ITEM_SIZE: usize> Drop
     fn drop(&mut self) {
         if let Some(inner) = self.inner.take() {
             let mut successor_tx = self.successor_tx.lock().unwrap();
-            match successor_tx.take() {
-                Some(successor_tx) => {
-                    let _ = successor_tx.send(inner);
-                }
-                _ => {
-                    if !inner.closed {
-                        let _ = inner.closed_tx.send(Some(ClosedReason::Dropped));
-                    }
-                }
+            let inner = match successor_tx.take() {
+                Some(successor_tx) => match successor_tx.send(inner) {
+                    Ok(()) => return,
+                    // The hand-over did not take place, i.e. this receiver is really dropped.
+                    Err(inner) => inner,
+                },
+                None => inner,
+            };
+
+            if !inner.closed {
+                let _ = inner.closed_tx.send(Some(ClosedReason::Dropped));
             }
         }
     }
